@@ -35,6 +35,7 @@ structure R where
   chunkChecked : Bool := false
   headEncoded : Bool := false
   hasBody : Bool := false
+  closeDelim : Bool := false    -- closeDelimited: no length is announced, the body ends with the connection
   wire : List Bytes := []       -- successful conn writes, in order
   attempts : Nat := 0           -- conn write calls so far
 
@@ -151,11 +152,11 @@ def headBytes (g : Cfg) (r : R) : Bytes :=
   let d := statusLine g r
   let d := if r.hasBody && hget r.header kCT == [] then
               d ++ str "Content-Type: text/plain; charset=utf-8\r\n" else d
-  let d := if !r.chunked && hget r.header kCL == [] then
+  let d := if !r.chunked && !r.closeDelim && hget r.header kCL == [] then
               let l := match r.bodyBuffer with | some b => b.length | none => 0
               d ++ str "Content-Length: " ++ (if r.hasBody && l > 0 then fmtDec l else str "0") ++ CRLF
            else d
-  let d := if g.reqClose && hget r.header kConn == [] then d ++ str "Connection: close\r\n" else d
+  let d := if (g.reqClose || r.closeDelim) && hget r.header kConn == [] then d ++ str "Connection: close\r\n" else d
   let d := if hget r.header kDate == [] then d ++ headerLine kDate datePlaceholder else d
   d ++ headerLines (hget r.header kTrailer) r.header ++ CRLF
 
@@ -346,8 +347,15 @@ def flushBodyBuf (g : Cfg) (r : R) : R :=
     else r
   | none => r
 
+/-- Flush, before the head is encoded: if the head goes out now and nothing tells the length of the body (not
+chunked, no Content-Length from the handler, a status that allows a body) the body is delimited by closing the
+connection: `closeDelimited = true; request.Close = true` -/
+def markDelim (r : R) : R :=
+  if !r.headEncoded && !r.chunked && hget r.header kCL == [] && r.statusCode != 204 && r.statusCode != 304
+  then { r with closeDelim := true } else r
+
 def flushOp (g : Cfg) (r : R) : R :=
-  flushBodyBuf g (flushBuf g (eoncodeHead g (checkChunked g (writeHeader200 r))))
+  flushBodyBuf g (flushBuf g (eoncodeHead g (markDelim (checkChunked g (writeHeader200 r)))))
 
 /-! ### flushResponse -/
 
@@ -412,7 +420,7 @@ def flushChunked (g : Cfg) (r : R) : R × Bool :=
 def finish (g : Cfg) (r : R) : R × Bool :=
   let r := eoncodeHead g (checkChunked g (writeHeader200 r))
   let (r, ok) := if r.chunked then flushChunked g r else flushIdentity g r
-  (r, !ok || g.reqClose)
+  (r, !ok || g.reqClose || r.closeDelim)
 
 /-! ### handler programs -/
 
